@@ -15,3 +15,4 @@ import DSymVerif.Props.C09
 #print axioms DSymVerif.C09.spanning_tree_is_spanning_tree
 #print axioms DSymVerif.C09.presents_orbifold_group
 #print axioms DSymVerif.C09.returned_group_is_textbook_group
+#print axioms DSymVerif.C09.spec_textbook_presents_TGroup
